@@ -568,17 +568,27 @@ def oracle_run(case):
     for ti, sig in results.items():
         cols, rows = frame_to_rows(frames[ti])
         exp_exc = None
+        exp_op = None
         covered = True
         try:
             for idx, o in enumerate(ops):
                 if o["operation"] == "split_rows" and idx != len(ops) - 1:
                     raise Skip()      # the reference models split_rows as the final operation only (tie order)
+                exp_op = o["operation"]
                 cols, rows = ref_apply(o, cols, rows)
         except Skip:
             covered = False
         except DOCUMENTED as exc:
             exp_exc = type(exc).__name__
         if sig[0] == "exc" and sig[1] == "MergeError-known":
+            continue
+        if sig[0] == "exc" and exp_exc == "ValueError" and exp_op == "remap_columns" and \
+                sig[1] in ("TypeError", "IndexError", "AttributeError"):
+            # the documented outcome is MapSourceValueMissing (a ValueError): a low-level error instead of it means the
+            # operation died before it got to look the values up
+            out.bad(f"valid-list-crashes:{sig[1]}:" + "+".join(sorted({o['operation'] for o in ops})),
+                    f"{sig[2]} where the documented error is a ValueError (source values missing from the map); ops "
+                    f"{json.dumps(ops)}\n{case['tables'][ti]['text']}")
             continue
         if sig[0] == "exc":
             documented_missing = any("missingcol" in json.dumps(o) for o in ops) or exp_exc is not None or \
